@@ -266,6 +266,36 @@ theorem rawCount_correct (b : Backend) (n1 : UInt8) (m : Mem)
   | neon => exact wrapCount_correct _ Neon.lawful n1 m start end_ c hs he
   | simd128 => exact wrapCount_correct _ Sensible.lawful_simd128 n1 m start end_ c hs he
 
+/-- C01.raw with the specification spelled out -/
+theorem C01_raw (b : Backend) (ns : Needles) (m : Mem) (start end_ : Nat) (c : Ctr)
+    (hs : m.base ≤ start) (he : end_ ≤ m.base + m.bytes.size) :
+    ∃ c', rawFind b ns false m start end_ c =
+      .ok ((Spec.firstIdx ns.confirm (m.window start (end_ - start))).map (start + ·)) c' :=
+  rawFind_correct b ns false m start end_ c hs he
+
+/-- C02.raw with the specification spelled out -/
+theorem C02_raw (b : Backend) (ns : Needles) (m : Mem) (start end_ : Nat) (c : Ctr)
+    (hs : m.base ≤ start) (he : end_ ≤ m.base + m.bytes.size) :
+    ∃ c', rawFind b ns true m start end_ c =
+      .ok ((Spec.lastIdx ns.confirm (m.window start (end_ - start))).map (start + ·)) c' :=
+  rawFind_correct b ns true m start end_ c hs he
+
+/-- C07.raw with the specification spelled out -/
+theorem C07_raw (b : Backend) (n1 : UInt8) (m : Mem) (start end_ : Nat) (c : Ctr)
+    (hs : m.base ≤ start) (he : end_ ≤ m.base + m.bytes.size) :
+    ∃ c', rawCount b n1 m start end_ c =
+      .ok (Spec.countP (· == n1) (m.window start (end_ - start))) c' :=
+  rawCount_correct b n1 m start end_ c hs he
+
+/-- a reversed window needs no hypothesis at all: nothing is dereferenced -/
+theorem rawFind_reversed (b : Backend) (ns : Needles) (rev : Bool) (m : Mem) (start end_ : Nat)
+    (c : Ctr) (h : end_ ≤ start) : rawFind b ns rev m start end_ c = .ok none c := by
+  have hge : start ≥ end_ := h
+  cases b <;> cases rev <;>
+    simp [rawFind, wrapFind, wrapRfind, avx2Find, avx2Rfind, swarFind, Swar.One.findRaw,
+      Swar.One.rfindRaw, Swar.Multi.findRaw, Swar.Multi.rfindRaw, hge] <;>
+    (generalize ns.rest = r; cases r <;> rfl)
+
 /-- hypotheses are satisfiable: a 40-byte region at an odd base address, a 5-byte window -/
 example : ∃ (m : Mem) (start end_ : Nat), m.base ≤ start ∧ end_ ≤ m.base + m.bytes.size ∧
     start < end_ :=
@@ -446,3 +476,18 @@ example : (⟨⟨0, 1001, Array.replicate 40 0⟩, 3, 10⟩ : Slice).Valid := by
   simp [Slice.Valid]
 
 end Memchr.Api
+
+#print axioms Memchr.Api.swarOk
+#print axioms Memchr.Api.rawFind_correct
+#print axioms Memchr.Api.rawCount_correct
+#print axioms Memchr.Api.C01_raw
+#print axioms Memchr.Api.C02_raw
+#print axioms Memchr.Api.C07_raw
+#print axioms Memchr.Api.memchrRaw_eq_select
+#print axioms Memchr.Api.select_available
+#print axioms Memchr.Api.sliceFind_correct
+#print axioms Memchr.Api.sliceCount_correct
+#print axioms Memchr.Api.memchr_correct
+#print axioms Memchr.Api.count_correct
+#print axioms Memchr.Api.C09_agree
+#print axioms Memchr.Api.C09_agree_count
